@@ -31,7 +31,7 @@ func init() {
 			return 400
 		},
 		Batches: func(t string) int { return 16 },
-		Rule: "each case = one session: two real secureKeys exchange public keys and run setup/hkdf, a SecureConn on each end (suite chacha/aes128/aes256; transport net.Pipe / buffered in-memory pipe with PRNG-sized deliveries / loopback TCP); both directions run concurrently, each with 2-10 writes of sizes from {0,1,15,1023,1024,1025,2047,2048,4096,65536,random} of position-unique bytes and a reader that uses buffers from {0,1,2,16,1000,1023,1024,1025,4096,random} directly, via io.ReadFull, via bufio.NewReaderSize(conn,4096).Read (goloop's stack) or via bufio Peek/ReadByte (fill path); then an offline tamper phase on the recorded wire image of one direction (bit flip in sealed part, bit flip in the 2 length bytes, swap of adjacent frames, replay, drop of a non-last frame, truncation, reflection to the sender) read back by a fresh peer. Non-trivial = distinct live direction in which at least one Read was issued with a buffer smaller than the plaintext pending in a frame, or a distinct tamper case that hit a frame with at least one intact frame before or after it.",
+		Rule:    "each case = one session: two real secureKeys exchange public keys and run setup/hkdf, a SecureConn on each end (suite chacha/aes128/aes256; transport net.Pipe / buffered in-memory pipe with PRNG-sized deliveries / loopback TCP); both directions run concurrently, each with 2-10 writes of sizes from {0,1,15,1023,1024,1025,2047,2048,4096,65536,random} of position-unique bytes and a reader that uses buffers from {0,1,2,16,1000,1023,1024,1025,4096,random} directly, via io.ReadFull, via bufio.NewReaderSize(conn,4096).Read (goloop's stack) or via bufio Peek/ReadByte (fill path); then an offline tamper phase on the recorded wire image of one direction (bit flip in sealed part, bit flip in the 2 length bytes, swap of adjacent frames, replay, drop of a non-last frame, truncation, reflection to the sender) read back by a fresh peer. Non-trivial = distinct live direction in which at least one Read was issued with a buffer smaller than the plaintext pending in a frame, or a distinct tamper case that hit a frame with at least one intact frame before or after it.",
 		MinNonTrivial: func(t string) int {
 			if t == ev.Thorough {
 				return 60000
@@ -49,9 +49,9 @@ func init() {
 		},
 		TimeoutSec: func(t string) int {
 			if t == ev.Thorough {
-				return 3000
+				return 6000
 			}
-			return 300
+			return 600
 		},
 		Run: run,
 	})
